@@ -518,6 +518,59 @@ def step (verify : Hdr → Hdr → Bool) (t : Tables) : Op → Tables × Res
   | .sampledRanges => (t, toRes (readTx (getRanges · .sampled) t) .ranges)
   | .prunedRanges => (t, toRes (readTx (getRanges · .pruned) t) .ranges)
 
+/-! ### `RedbStore::write_tx` as it is written
+
+`writeTx` above is the SUMMARY of a write transaction (all or nothing).  Below is the code of
+`write_tx` itself: begin a transaction, run the closure on it, commit only if the closure
+returned `Ok`, abort otherwise.  The redb contract is the hypothesis carried by `WriteTxn`:
+a transaction works on a private copy; `commit` publishes it, `abort` discards it.  A closure that
+fails may already have written to the copy (the insert loop writes headers before it meets a
+repeated hash): what it leaves behind is `dirty`, arbitrary.  `writeTxL_eq_writeTx`
+(Proofs/StoreRedb.lean) shows that lumina's code realises the summary, whatever `dirty` is. -/
+
+/-- a redb write transaction: the committed tables and the private working copy -/
+structure WriteTxn where
+  committed : Tables
+  working : Tables
+
+/-- `db.begin_write()` -/
+def beginWrite (t : Tables) : WriteTxn := { committed := t, working := t }
+/-- `tx.commit()`: the working copy becomes the committed state (redb contract) -/
+def WriteTxn.commit (tx : WriteTxn) : Tables := tx.working
+/-- `tx.abort()`: the working copy is discarded (redb contract) -/
+def WriteTxn.abort (tx : WriteTxn) : Tables := tx.committed
+
+/-- `let res = f(&mut tx)`: the closure works on the copy; when it fails the copy holds whatever
+    it wrote before failing (`dirty`) -/
+def WriteTxn.run (tx : WriteTxn) (f : Tables → Except Err (Tables × α)) (dirty : Tables → Tables) :
+    WriteTxn × Except Err α :=
+  match f tx.working with
+  | .ok (w, a) => ({ tx with working := w }, .ok a)
+  | .error e => ({ tx with working := dirty tx.working }, .error e)
+
+/-- `RedbStore::write_tx`:
+    `let mut tx = begin_write()?; let res = f(&mut tx); if res.is_ok() { tx.commit()? } else { tx.abort()? }; res` -/
+def writeTxL (dirty : Tables → Tables) (f : Tables → Except Err (Tables × α)) (t : Tables) :
+    Tables × Except Err α :=
+  let (tx, res) := (beginWrite t).run f dirty
+  match res with
+  | .ok a => (tx.commit, .ok a)
+  | .error e => (tx.abort, .error e)
+
+def insertL (dirty : Tables → Tables) (verify : Hdr → Hdr → Bool) (t : Tables) (headers : List Hdr) :
+    Tables × Except Err Unit :=
+  match tryIntoVerified verify headers with
+  | .error e => (t, .error e)
+  | .ok hs => writeTxL dirty (insertTx verify hs) t
+
+/-- `step` with every write transaction spelled out as in `write_tx` -/
+def stepL (dirty : Tables → Tables) (verify : Hdr → Hdr → Bool) (t : Tables) : Op → Tables × Res
+  | .insert batch => let (t', r) := insertL dirty verify t batch; (t', toRes r (fun _ => .unit))
+  | .remove h => let (t', r) := writeTxL dirty (removeHeightTx h) t; (t', toRes r (fun _ => .unit))
+  | .mark h => let (t', r) := writeTxL dirty (markAsSampledTx h) t; (t', toRes r (fun _ => .unit))
+  | .updMeta h cids => let (t', r) := writeTxL dirty (updateSamplingMetadataTx h cids) t; (t', toRes r (fun _ => .unit))
+  | op => step verify t op
+
 end RedbStore
 
 /-! ## histories -/
